@@ -32,10 +32,52 @@ Proof.
   assert (Hacc' : acc = snd (run_spec Py c [] rs)).
   { subst acc. rewrite Happ. cbn [snd]. rewrite Hacc. reflexivity. }
   assert (Hf : fits c acc).
-  { rewrite Hacc'. apply run_spec_fits. unfold fits. cbn. lia. }
+  { rewrite Hacc'. apply run_spec_fits. unfold fits. cbn [List.length]. lia. }
   rewrite <- Hacc' in Hrep. rewrite <- Hst in Hrep.
   destruct Hrep as [Hbuf _ _ _ _ _].
   unfold size in Hbig. rewrite Hbuf in Hbig.
+  destruct (le_lt_dec (List.length acc) 1) as [Hle|Hgt]; [exact Hle|].
+  specialize (Hf ltac:(lia)). lia.
+Qed.
+
+(* the compiled predicate (offset != 0 and pos + size >= batch_size): when only the first record
+   offered has offset 0 (offsets 0..n-1), a batch that reaches batch_size holds a single record *)
+Definition fits_cy (c : cfg) (acc : list record) : Prop :=
+  (2 <= List.length acc)%nat -> HEADER_SIZE + blen (region_of acc) < c_batch_size c.
+
+Lemma run_spec_fits_cy c : forall rs acc,
+  Forall (fun r => r_offset r <> 0) rs -> fits_cy c acc -> fits_cy c (snd (run_spec Cy c acc rs)).
+Proof.
+  induction rs as [|r rs IH]; intros acc Hoff Hinv; [exact Hinv|].
+  inversion Hoff as [|r' rs' Hr Hrs]; subst.
+  cbn [run_spec]. destruct (refuses Cy c acc r) eqn:E.
+  - specialize (IH acc Hrs Hinv). destruct (run_spec Cy c acc rs). exact IH.
+  - assert (Hinv' : fits_cy c (acc ++ [r])).
+    { unfold fits_cy. intros Hlen. rewrite region_snoc, blen_app.
+      unfold refuses in E. replace (r_offset r =? 0) with false in E by lia. cbn [negb andb] in E. lia. }
+    specialize (IH (acc ++ [r]) Hrs Hinv'). destruct (run_spec Cy c (acc ++ [r]) rs). exact IH.
+Qed.
+
+Theorem cy_oversize_single c r0 rs : Forall valid_rec (r0 :: rs) ->
+  Forall (fun r => r_offset r <> 0) rs ->
+  let st := fst (appends Cy c b_init (r0 :: rs)) in
+  let acc := accepted (r0 :: rs) (snd (appends Cy c b_init (r0 :: rs))) in
+  c_batch_size c <= size Cy st -> (List.length acc <= 1)%nat.
+Proof.
+  intros Hrs Hoff st acc Hbig.
+  destruct (appends_run Cy c (r0 :: rs) b_init [] repr_init (Forall_nil _) Hrs) as (st' & Happ & Hrep & Hv & Hacc).
+  assert (Hst : st = st') by (subst st; rewrite Happ; reflexivity).
+  assert (Hacc' : acc = snd (run_spec Cy c [] (r0 :: rs))).
+  { subst acc. rewrite Happ. cbn [snd]. rewrite Hacc. reflexivity. }
+  assert (Hf : fits_cy c acc).
+  { rewrite Hacc'. cbn [run_spec]. destruct (refuses Cy c [] r0).
+    - pose proof (run_spec_fits_cy c rs [] Hoff) as H. destruct (run_spec Cy c [] rs). apply H.
+      unfold fits_cy. cbn [List.length]. lia.
+    - pose proof (run_spec_fits_cy c rs ([] ++ [r0]) Hoff) as H. destruct (run_spec Cy c ([] ++ [r0]) rs). apply H.
+      unfold fits_cy. cbn [List.length app]. lia. }
+  rewrite <- Hacc' in Hrep. rewrite <- Hst in Hrep.
+  destruct Hrep as [Hbuf Hpos _ _ _ _].
+  unfold size in Hbig. rewrite Hpos, Hbuf in Hbig.
   destruct (le_lt_dec (List.length acc) 1) as [Hle|Hgt]; [exact Hle|].
   specialize (Hf ltac:(lia)). lia.
 Qed.
